@@ -121,6 +121,9 @@ def run_shard(spec, tier, seed):
         sources = [(fam, p) for fam in scen.FAMILIES for p in scen.personas(seed, year, fam, spec['n'])]
         if witness:
             sources += list(scen.directed_personas(year, 0, 2))
+        else:
+            sources += [(fam_, p_) for fam_, p_ in scen.directed_personas(year, seed, 1)]     # purpose-built situations: flipped first
+        directed_keys = {p_.key for _, p_ in sources if str(p_.key).startswith('dir')}
         for fam, p in sources:
             if True:
                 out, tv, t = realwork.traced(p)
@@ -138,13 +141,16 @@ def run_shard(spec, tier, seed):
             aff = gates[g][0]
             bases = [(p, ans, reads[g]) for p, ans, reads in pool if g in reads]
             rng.shuffle(bases)
+            if not witness:
+                bases.sort(key=lambda b: 0 if b[0].key in directed_keys else 1)
             if g.split('.')[0] in INPUT_FORMS:
                 bases.sort(key=lambda b: -len(b[2]))     # a box on a statement: returns with several copies first (each copy is flipped on its own)
             if not bases:
                 res.add('gates_never_read_in_a_solved_base', f'{year}|{g}')
                 continue
             nflip = 0
-            for p, ans, keys in (bases[:20] if witness else bases[:3 if tier == 'quick' else 10]):
+            ndir = sum(1 for b in bases if b[0].key in directed_keys)
+            for p, ans, keys in (bases[:20] if witness else bases[:min(ndir, 40) + (3 if tier == 'quick' else 10)]):
                 if witness and nflip:
                     break           # witness: every base is tried until the gate is reached once
                 for key in sorted(keys)[:2]:
